@@ -284,6 +284,10 @@ func (h *History) reply(conn int, rid [16]byte, rep Reply) {
 			}
 		}
 		r.Replies = append(r.Replies, rep)
+		if len(r.Replies) > 1 && h.w.keepLog {
+			_, st := stackClass()
+			h.w.logf("SECOND REPLY to c%d#%d built by [%s]", r.Client, r.Idx, st)
+		}
 		h.w.logf("R c%d#%d conn=%d res=%d type=%d lc=%d lrc=%d data=%x t=%s", r.Client, r.Idx, conn, rep.Result, rep.CmdType, rep.LCount, rep.LRCount, rep.Data, h.w.simT())
 		for _, f := range h.onReply {
 			f(r, &r.Replies[len(r.Replies)-1])
